@@ -54,6 +54,11 @@ CHECKS = {
          "All 64 subsets of 6 keys x 100 bound pairs x every limit 0..n+1 x 3 forms, unary and streamed; every content of up to 3 (quick) / 5 (thorough) pairs with sizes from {1KiB,1MiB,2MiB-1KiB,2MiB} for size cuts, per-message size/flags/counts, and a write between any two pulls of a stream.",
          "Trusted: refkv range semantics; vtproto SizeVT as the wire size. The KV gRPC layer above the FSM is exercised by C10/C16.",
          "DESIGN.md section 4, C09"),
+ "C11": ("model_checking",
+         "explicit-state BFS of the real queue loop inside testing/synctest bubbles (fake clock, quiescence = wedge detector) + exhaustive end-to-end event sequences",
+         "Part A: for 6 (thorough 8) waiter configurations BFS to depth 9 (thorough 12) over {add, cancel, notify, sweep tick, caller reads}; every path replayed in a fresh bubble against the real IndexNotificationQueue.Run; probes Len/Notify/Add after every event; visited set on the complete concrete state. Part B: every event sequence up to length 5 (thorough 6) over 10 events through the real ForwardingKVServer, real leader/follower FSMs and the real queue wired as cmd/follower.go: an acknowledged write is readable on the node, no caller keeps waiting once its revision is applied.",
+         "Trusted: testing/synctest's durable-blocking detection; the leader is a stub client over a real FSM; local indices are deliberately ahead of leader indices. FSM Open/Close run outside the bubble (pebble's long-lived goroutines), their notifications are delivered in order afterwards.",
+         "DESIGN.md section 4, C11"),
  "C12": ("exploration",
          "exhaustive enumeration of keys, ordered pairs and triples over a byte alphabet plus boundary lengths",
          "175 keys (all strings of length 1..3 over {00,01,61,FE,FF} + lengths 1018..1024 in 4 fill patterns): round trip through both decoders, all ordered pairs for injectivity/order, all triples for range membership, and every key through a real FSM with wildcard reads/deletes and bookkeeping intact.",
